@@ -115,6 +115,42 @@ fn program_case(rng: &mut Rng) -> Case {
     Case { st, seed: rng.next() as u32 & 0xFFFF, io: vec![], mem, steps: schedule(rng, n) }
 }
 
+/// Chains of three and more DD/FD prefixes (with an ED or CB in the end now and then) in front of an opcode, the
+/// INT line active at every boundary, IFF1 set: nothing may be accepted before the chain's instruction is over.
+fn chain_cases(rng: &mut Rng, n: usize) -> Vec<Case> {
+    let mut v = vec![];
+    for k in 0..n {
+        let mut st = random_state(rng);
+        st.w[PC] = 0x1000 + (rng.u16() % 0x6000);
+        if rng.bool() {
+            st.w[IR] = 0x8000 | (st.w[IR] & 0xFF);
+        }
+        st.w[SP] = 0xA000 + (rng.u16() & 0x0FFF);
+        st.ff = 0x03; // IFF1, IFF2
+        st.ap = 0;
+        st.im = rng.below(3) as u8;
+        let len = 3 + (k % 6);
+        let mut code: Vec<u8> = (0..len).map(|_| if rng.bool() { 0xDD } else { 0xFD }).collect();
+        match rng.below(6) {
+            0 => code.extend_from_slice(&[0x00]),
+            1 => code.extend_from_slice(&[0x21, 0x34, 0x12]),
+            2 => code.extend_from_slice(&[0x34, 0x02]),
+            3 => code.extend_from_slice(&[0xED, 0x44]),
+            4 => code.extend_from_slice(&[0xCB, 0x01, 0x06]),
+            _ => code.extend_from_slice(&[0xFB]),
+        }
+        code.extend_from_slice(&[0x00, 0x00, 0x3C, 0x00]);
+        let mut mem = vec![];
+        furniture(rng, &mut mem);
+        mem.push((st.w[PC], code));
+        // the line is held from the first boundary on in most cases, raised inside the chain in the others
+        let rise = if rng.chance(2, 3) { 0 } else { rng.below(len as u64) as usize };
+        let steps: Vec<Step> = (0..len + 4).map(|i| Step { lines: if i >= rise { 1 } else { 0 }, bus: edge8(rng) }).collect();
+        v.push(Case { st, seed: rng.next() as u32 & 0xFFFF, io: vec![], mem, steps });
+    }
+    v
+}
+
 /// every control state x every line combination x a list of boundary instructions, one step each
 fn matrix_cases(rng: &mut Rng) -> Vec<Case> {
     let firsts: [&[u8]; 14] = [
@@ -373,7 +409,7 @@ pub fn run(o: &Opts) -> Report {
     let mut rep = Report::new("C02");
     rep.rule = "(a) matrix, exhaustive over the control state: IFF1 x IFF2 x halted x skip_interrupt x pending prefix \
 {none,CB,DD,ED,FD} x IM {0,1,2} x INT/NMI line levels {4} x 14 boundary instructions (NOP, EI, DI, HALT, DD-prefixed, \
-prefix chains, RETN, RETI, IM 2, CB, DDCB, RET, LD A,I), random registers, one Z80::emulate each; (b) seeded random \
+prefix chains, RETN, RETI, IM 2, CB, DDCB, RET, LD A,I), random registers, one Z80::emulate each; (a2) chains of 3-8 DD/FD prefixes in front of an opcode with INT held active; (b) seeded random \
 programs of 4-28 boundaries biased to EI/DI/HALT/prefix chains/IM n/RETN/RETI with service routines at 0038/0066 \
 and an IM 2 table, scripted INT/NMI levels and bus byte per boundary, state carried. Per boundary: full post-state \
 and full bus trace against the reference model, plus the property's predicates on the real observations \
@@ -399,6 +435,10 @@ control state, line levels, outcome, T-states)"
         for chunk in cases.chunks(256) {
             run_cases(&mut model, &mut rep, chunk, "boundaries_matrix");
         }
+    }
+    let chains = chain_cases(&mut rng, o.n(240, 6000) as usize);
+    for chunk in chains.chunks(64) {
+        run_cases(&mut model, &mut rep, chunk, "boundaries_prefix_chains");
     }
     let programs = o.n(1500, 120_000);
     let mut batch = vec![];
